@@ -129,6 +129,39 @@ def directed_cases():
     return cases
 
 
+def concurrent_senders(seed):
+    """D11 (fixed in repo): several tasks send multi-fragment messages on one substream at the same time over a socket whose
+    send passes through the event loop (what a real socket's lock does). Returns a list of (key, what)."""
+    import anyio
+    from sim import Sim
+    from nintendo.nex import prudp, settings
+    rng = random.Random(seed)
+    bad = []
+    with Sim(seed) as sim:
+        s = settings.default(); s["prudp.fragment_size"] = rng.choice([7, 10, 16])
+        sim.install_factories()
+        sim.net.fate = lambda tx: [0.01]
+        got = []
+        msgs = [bytes([65 + i]) * rng.randint(2 * s["prudp.fragment_size"] + 1, 5 * s["prudp.fragment_size"]) for i in range(rng.randint(2, 4))]
+        async def handler(client):
+            while True:
+                try: got.append(await client.recv())
+                except anyio.EndOfStream: return
+        async def main():
+            async with prudp.serve(handler, s, "10.0.0.1", 60000):
+                async with prudp.connect(s, "10.0.0.1", 60000) as c:
+                    c.transport.socket.yield_on_send = True
+                    async with anyio.create_task_group() as tg:
+                        for m in msgs:
+                            tg.start_soon(c.send, m)
+                    await anyio.sleep(1)
+        sim.run(main())
+    if sorted(got) != sorted(msgs):
+        bad.append(("concurrent-senders", "concurrent sends on one substream were merged/split: sent %r, received %r" % (
+            [(m[:1], len(m)) for m in msgs], [(g[:1] + b".." + g[-1:], len(g)) for g in got])))
+    return bad
+
+
 def stale_duplicate(sess):
     """known finding D12: some accepted copy of a reliable packet arrived after more than 2^15 later reliable
     packets of its direction/substream had been emitted"""
@@ -287,6 +320,12 @@ def judge(sess, regime):
 def work(args):
     idx, seed, quick = args
     kwargs = {}
+    if isinstance(seed, str) and seed.startswith("concurrent-senders"):
+        try:
+            bad = concurrent_senders(int(seed.split(":")[1]))
+            return idx, seed, {"scenario": seed}, None, "directed", 0, bad, [], [], {"tx": 30, "regime": "directed:concurrent-senders", "enc": "v1", "msgs": 3, "connect_error": False, "timed_out": False}, None
+        except Exception:
+            return idx, seed, {"scenario": seed}, None, "directed", 0, [], [], [], {}, traceback.format_exc()
     if isinstance(seed, str):
         name = seed
         _, cfg, script, ff, regime, kwargs = [c for c in directed_cases() if c[0] == name][0]
@@ -318,6 +357,7 @@ def run(ctx):
                 "delays up to 2.5·resend_timeout); each direction/substream is replayed through the Lean channel model (emitted wires "
                 "byte-exact, arrivals, checkpoint states); distinct non-trivial = sessions with ≥1 delivered message and ≥1 fault or fragment")
     directed = [(100000 + i, c[0], quick) for i, c in enumerate(directed_cases())]
+    directed += [(100100 + i, "concurrent-senders:%d" % i, quick) for i in range(6 if quick else 60)]
     seeds = directed[::-1] + [(i, ctx.rng.getrandbits(48), quick) for i in range(n)]
     with multiprocessing.Pool(min(16, os.cpu_count() or 4)) as pool:
         results = pool.map(work, seeds, chunksize=1 if quick else 4)
